@@ -90,7 +90,9 @@ OBLIGATIONS = [
     kani("c09_n50_no_walls", ["C09"], "C09.corner", "N50Data::from(&EnergyProps)", bounded="element maps empty; every global scalar symbolic"),
     # ---- C13 ------------------------------------------------------------------------------------------
     kani("c13_aabb_join", ["C13"], "C13.aabb.join", "AABB::join / AABB::default"),
-    kani("c13_aabb_mono", ["C13"], "C13.aabb.mono", "AABB::intersects / AABB::join", tier="thorough", timeout=900),
+    kani("c13_aabb_mono_x", ["C13"], "C13.aabb.mono", "AABB::intersects / AABB::join (one axis; the other two slabs unbounded)", bounded="per-axis: the slab under test symbolic, the other two (-inf, +inf)", timeout=900),
+    kani("c13_aabb_mono_y", ["C13"], "C13.aabb.mono", "AABB::intersects / AABB::join (one axis; the other two slabs unbounded)", bounded="per-axis: the slab under test symbolic, the other two (-inf, +inf)", timeout=900),
+    kani("c13_aabb_mono_z", ["C13"], "C13.aabb.mono", "AABB::intersects / AABB::join (one axis; the other two slabs unbounded)", bounded="per-axis: the slab under test symbolic, the other two (-inf, +inf)", timeout=900),
     kani("c13_partition_p_n2", ["C13"], "C13.partition.P", "BVH::partition_elements_by_centroid (contract P assumed by the Verus unit)", bounded="2 boxes, all 12 coordinates symbolic", tier="thorough", timeout=3000),
     kani("c13_partition_p_n3", ["C13"], "C13.partition.P", "BVH::partition_elements_by_centroid (contract P assumed by the Verus unit)", bounded="3 boxes, all 18 coordinates symbolic", tier="thorough", timeout=3000),
     verus("bvh_builder", ["C13", "C14"], "C13.builder", "BVH::generate_node_list"),
